@@ -210,6 +210,7 @@ class NetSvcFaultWorld(seq.NetSvcWorld):
                             held=held, linked=new, rsrc=r, outcome=out)
                 for ip in new:
                     expected[ip] = r
+                    self.prov[ip] = r
             elif len(new) == 1:
                 ip = new[0]
                 if not self.in_net(ip):
